@@ -215,7 +215,8 @@ def register(E):
                 'clastic.errors.NotFound.__init__'],
         ensures=['implies(not wrote("status_code"), written("content_length") == FSIZE(path))',
                  'implies(not wrote("status_code"), wrote("last_modified") and wrote("response"))',
-                 'implies(wrote("status_code"), written("status_code") == 304)'],
+                 'implies(wrote("status_code"), written("status_code") == 304)',
+                 'NO_FILE_LEFT_OPEN()'],
         raises={'clastic.errors.HTTPException': None},
         exc_ensures=nonbreaking, exc_fields={'is_breaking': VBool(False)},
         trace_ensures=True,     # wrote()/written() read this call's own write trace
